@@ -461,6 +461,24 @@ class SymNumpy:
         return SymArr.fresh((offs[-1],), f, kind, dtype or dt)
 
     def _concatenate2d(self, arrs, axis):
+        if axis == 0 and all(a.ndim == 2 for a in arrs):
+            w = arrs[0].shape_[1]
+            for a in arrs[1:]:
+                if not same_dim(a.shape_[1], w) and not cur().branch(dim_term(a.shape_[1]) == dim_term(w), "concat-cols"):
+                    raise ValueError("all the input array dimensions except for the concatenation axis must match exactly")
+            order = ["elem", "bv", "int", "bool"]
+            kind = min((a.kind for a in arrs), key=order.index)
+            snaps = [a.snapshot() for a in arrs]
+            offs = [z3.IntVal(0)]
+            for a in arrs:
+                offs.append(z3.simplify(offs[-1] + dim_term(a.shape_[0])))
+
+            def f0(i, j):
+                out = coerce_term(snaps[-1](i - offs[len(arrs) - 1], j), kind)
+                for k in range(len(arrs) - 2, -1, -1):
+                    out = z3.If(i < offs[k + 1], coerce_term(snaps[k](i - offs[k], j), kind), out)
+                return out
+            return SymArr.fresh((offs[-1], w), f0, kind, arrs[0].dtype)
         if axis not in (-1, 1) or any(a.ndim != 2 for a in arrs):
             raise Unsupported("2-D concatenate other than along the last axis")
         n = arrs[0].shape_[0]
